@@ -31,7 +31,15 @@ def chk_restricted(c):
     elim_rows = None
     if c.get('elim_rows') is not None:
         elim_rows = list(c['elim_rows'])
-    L = assemble.RestrictedLinearSystem(A, b, (idx, vals), elim_rows=elim_rows)
+    idx_arg = idx
+    if c.get('index_form') == 'negative':
+        # numpy-style negative indices for some of the dofs (they count from the end)
+        idx_arg = np.array([i - n if k % 2 == 0 else i for k, i in enumerate(idx)], dtype=int)
+    elif c.get('index_form') == 'list':
+        idx_arg = [int(i) for i in idx]
+    elif c.get('index_form') == 'tuple':
+        idx_arg = tuple(int(i) for i in idx)
+    L = assemble.RestrictedLinearSystem(A, b, (idx_arg, vals), elim_rows=elim_rows)
     nfree = n - len(idx)
     u = rng.randint(-5, 6, size=nfree).astype(float)
     x = L.complete(u)
@@ -270,6 +278,10 @@ def generate(tier, rng):
             er = rng.sample(range(n), r)
         yield 'restricted', {'n': n, 'indices': sub, 'sparse': bool(seed % 2), 'rhs': ['array', 'zero', 'scalar'][seed % 3],
                              'values': 'array' if seed % 4 else 'scalar', 'seed': seed, 'elim_rows': er}
+        if seed % 3 == 1 and r:
+            # the index set as a list / tuple / with numpy-style negative entries, with scalar and per-dof values
+            yield 'restricted', {'n': n, 'indices': sub, 'sparse': bool(seed % 2), 'rhs': 'array', 'values': ['array', 'scalar'][seed % 2], 'seed': seed,
+                                 'index_form': ['negative', 'list', 'tuple'][seed // 3 % 3]}
     for shape in ([3], [2, 3], [3, 3], [2, 3, 2], [3, 3, 3]):
         d = len(shape)
         for ax in range(d):
